@@ -92,6 +92,20 @@ def check_pkg(case) -> list[Fail]:
                 f.append(Fail("to_str", "differs-from-bytes", ""))
         except Exception as e:  # noqa: BLE001
             f.append(exc_fail("to_str", e))
+    else:
+        # JSON + zstd as text: either it cannot be encoded (ValueError) or the string decodes back
+        try:
+            s2 = p.to_str(cfg)
+        except ValueError:
+            s2 = None
+        except Exception as e:  # noqa: BLE001
+            f.append(exc_fail("to_str-compressed", e))
+            s2 = None
+        if s2 is not None:
+            try:
+                f += same_package(Package.from_str(s2), doc, "str-compressed")
+            except Exception as e:  # noqa: BLE001
+                f.append(Fail("to_str", "compressed-text-does-not-decode", f"{type(e).__name__}: {e}"[:200]))
     # default configurations
     try:
         f += same_package(Package.from_bytes(p.to_bytes()), doc, "default-bytes")
